@@ -429,7 +429,7 @@ func descAll(es []drv.VersionEntry) []string {
 
 func runC13(c *Ctx) {
 	r := c.R
-	r.SetRule("version histories as in C05 over keys {vk, dir/v2, dir/v3, w} or {a0, dir/v2, dir/v3, e/f, w} (single-version keys, latest = delete marker, never-versioned, suspended, re-enabled); after every step ListObjectVersions is compared with VersionModel (every remaining version once, grouped by ascending key, one IsLatest = what an unqualified GET serves, sizes/ETags, 'null' ids before versioning), and at the end of each history for 8 prefixes x {no delimiter,'/'} unpaginated, walked with NextKeyMarker/NextVersionIdMarker for every max-keys 1..n+1, and started at every (key, version) pair, also together with prefixes that the marker's key does not match; memory backend; distinct = distinct histories")
+	r.SetRule("version histories as in C05 over keys {vk, dir/v2, dir/v3, w} or {a0, dir/v2, dir/v3, e/f, w} (single-version keys, latest = delete marker, never-versioned, suspended, re-enabled); after every step ListObjectVersions is compared with VersionModel (every remaining version once, grouped by ascending key, one IsLatest = what an unqualified GET serves, sizes/ETags, 'null' ids before versioning), and at the end of each history for 8 prefixes x {no delimiter,'/'} unpaginated, walked with NextKeyMarker/NextVersionIdMarker for every max-keys 1..n+1, and started at every (key, version) pair, also together with prefixes that the marker's key does not match; walks during which the version named by the server's markers is deleted between two pages (everything else must still be retrieved once); memory backend; distinct = distinct histories")
 	nh := r.Pick(2500, 50000)
 	exhLen := r.Pick(4, 5)
 	alpha := []vstep{{Op: "put", Key: "vk"}, {Op: "delete", Key: "vk"}, {Op: "delete-version", Key: "vk", Which: 0}, {Op: "delete-version", Key: "vk", Which: 9},
@@ -509,6 +509,8 @@ func runC13(c *Ctx) {
 			}
 		}
 	})
+	c13WalkWithDeletes(r, r.Pick(400, 6000))
+	r.Require("marker_versions_deleted_between_pages", 100)
 	r.Require("listings", 10000)
 	r.Require("multi_page_walks", 1000)
 	r.Require("marker_pair_probes", 500)
